@@ -26,7 +26,10 @@ RuleOK(impl, a) ==
             ELSE IF \E p \in ps : Abs(W(impl, p) * (SumW(G, a) \div 100) - RawW(G, p) * 100) > Tol * (SumW(G, a) \div 100) + 100
                  THEN "C19:ratio" ELSE "ok"
 
+\* the property speaks of grammars extracted from classes CARRYING production weights
+AnyWeighted == \E c \in Names(G) : G.classes[c].hasw
 FirstBadRule(impl) ==
+    IF ~AnyWeighted THEN "ok" ELSE
     LET wrong == {a \in Registered(impl) : IsAbs(G, a) /\ RuleOK(impl, a) # "ok"}
     IN IF wrong = {} THEN "ok" ELSE RuleOK(impl, CHOOSE a \in wrong : TRUE)
 
